@@ -135,8 +135,9 @@ class ImmuneSystem:
             structure_hash=peptide.structure_hash,
         )
 
-        if recalled is not None:
-            # Known threat - fast response
+        if recalled is not None and not tcell.is_anergic and tcell.profile.check(peptide):
+            # Known threat - fast response (memory is signal 2; the current behaviour
+            # must still violate the trained baseline, which is signal 1)
             return ImmuneResponse(
                 agent_id=agent_id,
                 threat_level=recalled.threat_level,
